@@ -35,7 +35,9 @@ class TreeObserver:
 
     def pre(self, interp, run, op, path):
         if op["op"] in ("ctx", "call"):
-            self.fb_stack.append({"ctx": model.Ctx(args={}), "certain": True})
+            # a call whose parameters are annotated starts its body with bindings the open-loop model does not compute
+            certain = op["op"] == "ctx" or all(a is None for _, a in self.scn["fns"][op["fn"]]["params"])
+            self.fb_stack.append({"ctx": model.Ctx(args={}), "certain": certain})
             return
         if op["op"] not in ("tree", "arr"):
             return
@@ -56,12 +58,27 @@ class TreeObserver:
                 ctx = top["ctx"].copy()
                 ctx.args = self._args(run)
             spec = self.scn["anns"][op["ann"]]
-            if spec["k"] == "arr":
-                outs, post = model.match_array(spec, op["val"], ctx)
-            elif spec["k"] == "baretree":
-                outs, post = {"accept"}, ctx
-            else:
-                outs, post = self.tm.match_tree(spec, op["val"], ctx)
+
+            def predict(c):
+                if spec["k"] == "arr":
+                    return model.match_array(spec, op["val"], c)
+                if spec["k"] == "baretree":
+                    return {"accept"}, c
+                return self.tm.match_tree(spec, op["val"], c)
+
+            outs, post = predict(ctx)
+            # history shadow: the same prediction from the context that the ACCEPTED checks of this block imply (open loop, not
+            # re-synchronised): a verdict that is right for the observed bindings but wrong for the history means that an earlier
+            # operation of the block corrupted the bindings
+            self.shadow = None
+            top = self.fb_stack[-1] if self.fb_stack else None
+            if not self.fallback and run.frames and top is not None and top["certain"]:
+                sctx = top["ctx"].copy()
+                sctx.args = self._args(run)
+                try:
+                    self.shadow = predict(sctx)
+                except Exception:
+                    top["certain"] = False
             self.pending = (snap, outs, post, bool(run.frames), len(seams.state().fired))
 
     def post(self, interp, run, op, path, out):
@@ -78,14 +95,38 @@ class TreeObserver:
             if self.fb_stack:
                 self.fb_stack[-1]["certain"] = False
             return
+        spec = self.scn["anns"][op["ann"]]
+        got = "accept" if out is True else "reject" if out is False else (
+            "AnnotationError" if out.get("exc") == "AnnotationError" else "exc")
         if getattr(self, "fallback", False) and self.fb_stack:
             if out is True and outs == {"accept"} and post is not None:
                 self.fb_stack[-1]["ctx"] = post
             elif out is True or len(outs) > 1:
                 self.fb_stack[-1]["certain"] = False
-        spec = self.scn["anns"][op["ann"]]
-        got = "accept" if out is True else "reject" if out is False else (
-            "AnnotationError" if out.get("exc") == "AnnotationError" else "exc")
+        elif self.fb_stack and in_ctx:
+            top = self.fb_stack[-1]
+            sh = getattr(self, "shadow", None)
+            if sh is None:
+                top["certain"] = False if out is True else top["certain"]
+            else:
+                s_outs, s_post = sh
+                if got in outs and got not in s_outs and top["certain"] and len(self.viol) < 3:
+                    self.viol.append(violation(self.pid, "history-model", {
+                        "path": path, "annotation": self.describe(op["ann"]), "value": op["val"],
+                        "what": "the verdict fits the bindings observed just before the check, but not the bindings that the accepted "
+                                "checks of this block imply: an earlier operation of the block lost, added or changed a binding",
+                        "bindings_observed_before": snap0.get("top"),
+                        "bindings_implied_by_history": {"axes": top["ctx"].axes, "variadics": top["ctx"].variadics,
+                                                        "structs": sorted(top["ctx"].structs)},
+                        "history_model_allows": sorted(s_outs), "implementation": out},
+                        sig={"oracle": "history-model", "got": got, "allowed": "+".join(sorted(s_outs)), "kind": op["op"],
+                             "shape": self.ann_shape(op["ann"])}))
+                    top["certain"] = False
+                elif out is True and s_outs == {"accept"} and s_post is not None:
+                    top["ctx"] = s_post
+                elif out is True or got not in s_outs:
+                    top["certain"] = False
+            self.stats.inc("history_shadow_judged" if sh is not None else "history_shadow_uncertain")
         self.stats.inc("evaluations")
         self.stats.inc(f"{op['op']}:{got}")
         if self.feature_fn is not None:
